@@ -2,7 +2,7 @@
 C12 — a thread's own step preserves its invariant and satisfies the side conditions of its action; the
 system invariant `Inv` is inductive (any number of threads, any schedule).
 -/
-import TbbVerif.Proofs.C12.CasList
+import TbbVerif.Proofs.C12.Contig
 
 namespace TbbVerif.C12
 open CasList
@@ -29,6 +29,57 @@ theorem linked_none {rule} {L : LSt} (g : Good rule L) {p : Node} (hp : p ∈ L.
   cases hh : aft p L.chain with
   | nil => rfl
   | cons y ys => simp [hh] at this
+
+/-- the conditions that keep equivalent keys contiguous, from what the inserting thread knows at its CAS -/
+theorem link_contig_of {rule} {L : LSt} {t : Tid} {k : Key} {prev new : Node} {curr : Option Node} (g : Good rule L)
+    (h : InsInv rule L t k prev new) (hc : CurrOk rule L k curr) (hcas : L.next prev = curr) :
+    LinkContig rule L prev new := by
+  refine ⟨?_, ?_⟩
+  · intro hb
+    rw [h.keynew] at hb ⊢
+    have hna : rule k ≠ .after := by rw [hb]; simp
+    cases hcur : curr with
+    | none =>
+      right
+      rw [hcur] at hcas
+      intro x hx hkx
+      have := h.behind hna x hx hkx
+      rw [linked_none g h.prev_mem hcas] at this; simp at this
+    | some c =>
+      rw [hcur] at hcas hc
+      obtain ⟨r, hr⟩ := linked_some g h.prev_mem hcas
+      obtain ⟨hcm, hadv, _⟩ := hc
+      rw [hb] at hadv
+      rcases stop_before hadv with hlt | heq
+      · right
+        intro x hx hkx
+        have hxa := h.behind hna x hx hkx
+        have hcx : (L.key c).ok ≤ (L.key x).ok := by
+          rw [hr] at hxa
+          rcases List.mem_cons.mp hxa with hxa | hxa
+          · rw [hxa]; exact Nat.le_refl _
+          · rw [← aft_step g.nodup hr] at hxa
+            exact pairwise_aft (R := fun a b => (L.key a).ok ≤ (L.key b).ok) g.sorted hcm hxa
+        rw [hkx] at hcx; omega
+      · left; exact ⟨c, r, hr, heq⟩
+  · intro c r hr hkpc
+    rw [h.keynew]
+    have hcc : curr = some c := by
+      have := g.linked prev h.prev_mem
+      rw [hr] at this
+      rw [← hcas, this]; rfl
+    rw [hcc] at hc
+    obtain ⟨_, hadv, _⟩ := hc
+    have h1 := h.prev_le
+    have h2 := not_adv_ge hadv
+    have h3 : (L.key prev).ok = (L.key c).ok := by rw [hkpc]
+    have hok : (L.key c).ok = k.ok := by omega
+    have hkc : L.key c = k := by
+      by_cases hra : rule k = .after
+      · rw [hra] at hadv; simp [adv] at hadv; omega
+      · exact key_eq_of_not_adv hra hadv hok
+    rw [hkpc, hkc]
+
 
 theorem step_idle {rule} {L : LSt} {t : Tid} {th : Th} (g : Good rule L) (hpc : th.pc = .idle) :
     StepOk rule L t (thStep rule L t th) := by
@@ -69,7 +120,7 @@ theorem step_idle {rule} {L : LSt} {t : Tid} {th : Th} (g : Good rule L) (hpc : 
   · rename_i k start rest hops
     split
     · rename_i hv
-      simp only [validStart, Bool.and_eq_true, Bool.or_eq_true, decide_eq_true_eq] at hv
+      simp only [validFind, Bool.and_eq_true, decide_eq_true_eq] at hv
       refine ⟨trivial, ?_, by simp, by simp [LSt.apply, addLog]⟩
       simp only [TInv, LSt.apply]
       refine ⟨hv.1, ?_⟩
@@ -77,14 +128,8 @@ theorem step_idle {rule} {L : LSt} {t : Tid} {th : Th} (g : Good rule L) (hpc : 
       simp only [hasKey, List.any_eq_true, decide_eq_true_eq] at hm
       obtain ⟨x, hx, hkx⟩ := hm
       refine ⟨x, ?_, hkx⟩
-      by_cases hlt : (L.key start).ok < (L.key x).ok
-      · exact mem_aft_of_lt (f := fun a => (L.key a).ok) g.sorted hv.1 hx hlt
-      · exfalso
-        rcases hv.2 with h | h
-        · rw [hkx] at hlt; exact hlt h
-        · -- `after` rule with equal order key: `validStart` for finds is used with the strict clause only
-          rw [hkx] at hlt
-          exact absurd h hlt.elim
+      have hlt : (L.key start).ok < (L.key x).ok := by rw [hkx]; exact hv.2
+      exact mem_aft_of_lt (f := fun a => (L.key a).ok) g.sorted hv.1 hx hlt
     · exact ⟨trivial, by simp [LSt.apply, TInv, Th.finish], by simp [ResOk], by simp [LSt.apply, addLog, succNode]⟩
   · refine ⟨trivial, ?_, by simp, by simp [LSt.apply, addLog]⟩
     simp only [TInv, LSt.apply]
@@ -95,5 +140,306 @@ theorem step_idle {rule} {L : LSt} {t : Tid} {th : Th} (g : Good rule L) (hpc : 
       rcases List.mem_cons.mp hx with h | h
       · exact Or.inl (by simp [h])
       · exact Or.inr h
+
+
+theorem step_search {rule} {L : LSt} {t : Tid} {th : Th} (g : Good rule L) (hpc : th.pc = .search)
+    (h : InsInv rule L t th.k th.prev th.new) : StepOk rule L t (thStep rule L t th) := by
+  unfold thStep
+  simp only [hpc]
+  split
+  · -- end of the list
+    exact ⟨trivial, ⟨by simpa [LSt.apply] using h, trivial⟩, by simp, by simp [LSt.apply, addLog]⟩
+  · rename_i c hc
+    obtain ⟨r, hr⟩ := linked_some g h.prev_mem hc
+    have hcm : c ∈ L.chain := mem_of_mem_aft (p := th.prev) (by rw [hr]; simp)
+    split
+    · -- walk on
+      rename_i hadv
+      refine ⟨trivial, ?_, by simp, by simp [LSt.apply, addLog]⟩
+      simp only [TInv, hpc, LSt.apply]
+      refine ⟨h.own, h.lt, h.notin, h.keynew, hcm, adv_le hadv, ?_, h.pos⟩
+      intro hru x hx hkx
+      have hb := h.behind hru x hx hkx
+      rw [hr] at hb
+      rcases List.mem_cons.mp hb with hb | hb
+      · subst hb
+        rw [hkx, adv_self_false hru] at hadv
+        exact absurd hadv (by simp)
+      · rw [aft_step g.nodup hr]; exact hb
+    · rename_i hadv
+      split
+      · -- an equivalent key is present
+        rename_i hhit
+        have hu : rule th.k = .uniq := by
+          simp only [hit, Bool.and_eq_true, decide_eq_true_eq] at hhit; exact hhit.1
+        rw [hu] at hadv hhit
+        have hk := hit_eq (by simpa using hadv) hhit
+        refine ⟨trivial, by simp [LSt.apply, TInv, Th.finish], ?_, by simp [LSt.apply, addLog, succNode]⟩
+        intro r' hr'
+        simp only [Option.some.injEq] at hr'
+        subst hr'
+        refine ⟨hcm, hk, ?_⟩
+        intro h0
+        have hp := h.pos (by rw [hu]; simp)
+        rw [h0, g.key0] at hk
+        rw [← hk] at hp
+        simp at hp
+      · rename_i hhit
+        refine ⟨trivial, ?_, by simp, by simp [LSt.apply, addLog]⟩
+        simp only [TInv, LSt.apply]
+        exact ⟨h, hcm, by simpa using hadv, by simpa using hhit⟩
+
+theorem step_setNext {rule} {L : LSt} {t : Tid} {th : Th} (g : Good rule L) (hpc : th.pc = .setNext)
+    (h : InsInv rule L t th.k th.prev th.new) (hc : CurrOk rule L th.k th.curr) :
+    StepOk rule L t (thStep rule L t th) := by
+  unfold thStep
+  simp only [hpc]
+  have ha : ActOk rule L t (.setNext th.new th.curr) := ⟨h.own, h.notin, h.lt⟩
+  refine ⟨ha, ?_, by simp, by simp [LSt.apply, addLog]⟩
+  simp only [TInv]
+  refine ⟨?_, ?_, by simp [LSt.apply, upd]⟩
+  · exact ⟨h.own, h.lt, h.notin, h.keynew, h.prev_mem, h.prev_le, h.behind, h.pos⟩
+  · exact currok_stable g ha hc
+
+theorem step_cas {rule} {L : LSt} {t : Tid} {th : Th} (g : Good rule L) (hpc : th.pc = .cas)
+    (h : InsInv rule L t th.k th.prev th.new) (hc : CurrOk rule L th.k th.curr) (hn : L.next th.new = th.curr) :
+    StepOk rule L t (thStep rule L t th) := by
+  unfold thStep
+  simp only [hpc]
+  split
+  · rename_i hcas
+    -- everything behind `prev` has an order key ≥ the new key (strictly, unless `before` found its equal)
+    have hge : ∀ x ∈ aft th.prev L.chain, th.k.ok ≤ (L.key x).ok ∧
+        ((rule th.k ≠ .before → th.k.ok < (L.key x).ok)) := by
+      intro x hx
+      cases hcur : th.curr with
+      | none =>
+        rw [hcur] at hcas
+        rw [linked_none g h.prev_mem hcas] at hx
+        simp at hx
+      | some c =>
+        rw [hcur] at hcas hc
+        obtain ⟨r, hr⟩ := linked_some g h.prev_mem hcas
+        obtain ⟨hcm, hadv, hhit⟩ := hc
+        have hcx : (L.key c).ok ≤ (L.key x).ok := by
+          rw [hr] at hx
+          rcases List.mem_cons.mp hx with hx | hx
+          · rw [hx]; exact Nat.le_refl _
+          · rw [← aft_step g.nodup hr] at hx
+            exact pairwise_aft (R := fun a b => (L.key a).ok ≤ (L.key b).ok) g.sorted hcm hx
+        refine ⟨Nat.le_trans (not_adv_ge hadv) hcx, ?_⟩
+        intro hnb
+        cases hrk : rule th.k with
+        | uniq => rw [hrk] at hadv hhit; exact Nat.lt_of_lt_of_le (stop_uniq hadv hhit) hcx
+        | before => exact absurd hrk hnb
+        | after => rw [hrk] at hadv; exact Nat.lt_of_lt_of_le (stop_after hadv) hcx
+    have hl : LinkOk rule L th.prev th.new ∧ LinkSide rule L th.prev th.new := by
+      refine ⟨⟨h.prev_mem, h.notin, h.lt, by rw [hn, hcas], by rw [h.keynew]; exact h.prev_le, ?_, ?_⟩, ?_⟩
+      · intro x hx; rw [h.keynew]; exact (hge x hx).1
+      · intro hu x hx hkx
+        rw [h.keynew] at hu hkx
+        have hb := h.behind (by rw [hu]; simp) x hx hkx
+        have := (hge x hb).2 (by rw [hu]; simp)
+        rw [hkx] at this; omega
+      · unfold LinkSide
+        rw [h.keynew]
+        by_cases hb : rule th.k = .before
+        · cases hcur : th.curr with
+          | none =>
+            left
+            rw [hcur] at hcas
+            rw [linked_none g h.prev_mem hcas]; simp
+          | some c =>
+            rw [hcur] at hcas hc
+            obtain ⟨r, hr⟩ := linked_some g h.prev_mem hcas
+            obtain ⟨hcm, hadv, _⟩ := hc
+            rw [hb] at hadv
+            rcases stop_before hadv with hlt | heq
+            · left
+              intro x hx
+              have hcx : (L.key c).ok ≤ (L.key x).ok := by
+                rw [hr] at hx
+                rcases List.mem_cons.mp hx with hx | hx
+                · rw [hx]; exact Nat.le_refl _
+                · rw [← aft_step g.nodup hr] at hx
+                  exact pairwise_aft (R := fun a b => (L.key a).ok ≤ (L.key b).ok) g.sorted hcm hx
+              omega
+            · right
+              exact ⟨hb, c, r, hr, heq⟩
+        · left
+          intro x hx; exact (hge x hx).2 hb
+    have ha : ActOk rule L t (.link th.prev th.new) := ⟨h.own, hl.1, hl.2, link_contig_of g h hc hcas⟩
+    refine ⟨ha, by simp [TInv, Th.finish], ?_, by simp [LSt.apply, addLog, succNode]⟩
+    intro r' hr'
+    simp only [Option.some.injEq] at hr'
+    subst hr'
+    exact ⟨by simp [LSt.apply], by simpa [LSt.apply] using h.keynew, by simpa [LSt.apply] using h.own,
+      by simpa [LSt.apply] using h.lt⟩
+  · -- failed CAS: search again from the same `prev`, which is still in the list
+    refine ⟨trivial, ?_, by simp, by simp [LSt.apply, addLog]⟩
+    simpa [TInv, LSt.apply] using h
+
+theorem step_fwalk {rule} {L : LSt} {t : Tid} {th : Th} (g : Good rule L) (hpc : th.pc = .fwalk)
+    (h : FInv L th.k th.prev th.must) : StepOk rule L t (thStep rule L t th) := by
+  unfold thStep
+  simp only [hpc]
+  split
+  · rename_i hc
+    refine ⟨trivial, by simp [TInv, Th.finish], ?_, by simp [LSt.apply, addLog, succNode]⟩
+    intro r' hr'
+    simp only [Option.some.injEq] at hr'
+    subst hr'
+    refine ⟨?_, by simp⟩
+    intro hm
+    obtain ⟨x, hx, _⟩ := h.ahead hm
+    rw [linked_none g h.prev_mem hc] at hx
+    simp at hx
+  · rename_i c hc
+    obtain ⟨r, hr⟩ := linked_some g h.prev_mem hc
+    have hcm : c ∈ L.chain := mem_of_mem_aft (p := th.prev) (by rw [hr]; simp)
+    split
+    · rename_i hgt
+      refine ⟨trivial, by simp [TInv, Th.finish], ?_, by simp [LSt.apply, addLog, succNode]⟩
+      intro r' hr'
+      simp only [Option.some.injEq] at hr'
+      subst hr'
+      refine ⟨?_, by simp⟩
+      intro hm
+      obtain ⟨x, hx, hkx⟩ := h.ahead hm
+      exfalso
+      have hcx : (L.key c).ok ≤ (L.key x).ok := by
+        rw [hr] at hx
+        rcases List.mem_cons.mp hx with hx | hx
+        · rw [hx]; exact Nat.le_refl _
+        · rw [← aft_step g.nodup hr] at hx
+          exact pairwise_aft (R := fun a b => (L.key a).ok ≤ (L.key b).ok) g.sorted hcm hx
+      rw [hkx] at hcx; omega
+    · split
+      · rename_i heq
+        refine ⟨trivial, by simp [TInv, Th.finish], ?_, by simp [LSt.apply, addLog, succNode]⟩
+        intro r' hr'
+        simp only [Option.some.injEq] at hr'
+        subst hr'
+        refine ⟨by simp, ?_⟩
+        intro n hn
+        simp only [Option.some.injEq] at hn
+        subst hn
+        exact ⟨hcm, heq⟩
+      · rename_i hne
+        refine ⟨trivial, ?_, by simp, by simp [LSt.apply, addLog]⟩
+        simp only [TInv, hpc, LSt.apply]
+        refine ⟨hcm, ?_⟩
+        intro hm
+        obtain ⟨x, hx, hkx⟩ := h.ahead hm
+        refine ⟨x, ?_, hkx⟩
+        rw [hr] at hx
+        rcases List.mem_cons.mp hx with hx | hx
+        · subst hx; exact absurd hkx hne
+        · rw [aft_step g.nodup hr]; exact hx
+
+theorem step_twalk {rule} {L : LSt} {t : Tid} {th : Th} (g : Good rule L) (hpc : th.pc = .twalk)
+    (h : TrInv L th.prev th.seen th.snap) : StepOk rule L t (thStep rule L t th) := by
+  unfold thStep
+  simp only [hpc]
+  split
+  · rename_i hc
+    have hnil := linked_none g h.prev_mem hc
+    refine ⟨trivial, by simp [TInv, Th.finish], ?_, by simp [LSt.apply, addLog, succNode]⟩
+    intro r' hr'
+    simp only [Option.some.injEq] at hr'
+    subst hr'
+    refine ⟨?_, ?_⟩
+    · have := h.sub
+      rw [upto_eq_self_of_aft_nil h.prev_mem hnil] at this
+      simpa [LSt.apply] using this
+    · intro x hx
+      rcases h.cover x hx with h1 | h1
+      · simpa using h1
+      · rw [hnil] at h1; simp at h1
+  · rename_i c hc
+    obtain ⟨r, hr⟩ := linked_some g h.prev_mem hc
+    have hcm : c ∈ L.chain := mem_of_mem_aft (p := th.prev) (by rw [hr]; simp)
+    refine ⟨trivial, ?_, by simp, by simp [LSt.apply, addLog]⟩
+    simp only [TInv, hpc, LSt.apply]
+    refine ⟨hcm, rfl, ?_, ?_⟩
+    · rw [upto_step g.nodup hr, List.reverse_cons]
+      exact List.Sublist.append h.sub (List.Sublist.refl _)
+    · intro x hx
+      rcases h.cover x hx with h1 | h1
+      · exact Or.inl (List.mem_cons_of_mem _ h1)
+      · rw [hr] at h1
+        rcases List.mem_cons.mp h1 with h2 | h2
+        · exact Or.inl (by simp [h2])
+        · right; rw [aft_step g.nodup hr]; exact h2
+
+theorem step_ok {rule} {L : LSt} {t : Tid} {th : Th} (g : Good rule L) (h : TInv rule L t th) :
+    StepOk rule L t (thStep rule L t th) := by
+  unfold TInv at h
+  cases hpc : th.pc <;> simp only [hpc] at h
+  · exact step_idle g hpc
+  · exact step_search g hpc h
+  · exact step_setNext g hpc h.1 h.2
+  · exact step_cas g hpc h.1 h.2.1 h.2.2
+  · exact step_fwalk g hpc h
+  · exact step_twalk g hpc h
+
+/-! ### the system invariant -/
+
+structure Inv (rule : Key → Rule) (s : St) : Prop where
+  good : Good rule s.L
+  tinv : ∀ t th, s.ths[t]? = some th → TInv rule s.L t th
+  logok : ∀ e ∈ s.log, ResOk s.L e.1 e.2
+  wins : s.L.wins = s.log.filterMap succNode
+  contig : Contig rule s.L
+
+theorem inv_init (rule : Key → Rule) (progs : List (List Op)) : Inv rule (initSt progs) := by
+  refine ⟨good_init rule, ?_, by simp [initSt], by simp [initSt], contig_init rule⟩
+  intro t th hth
+  simp only [initSt, List.getElem?_map, Option.map_eq_some_iff] at hth
+  obtain ⟨p, _, hp⟩ := hth
+  subst hp
+  simp [TInv]
+
+theorem inv_step (rule : Key → Rule) (s : St) (t : Tid) (h : Inv rule s) : Inv rule (step rule s t) := by
+  unfold step
+  cases hth : s.ths[t]? with
+  | none => simpa using h
+  | some th =>
+    simp only
+    have so := step_ok h.good (h.tinv t th hth)
+    refine ⟨good_apply h.good so.act, ?_, ?_, ?_, contig_apply h.good h.contig so.act⟩
+    · intro u thu hu
+      simp only at hu
+      rw [List.getElem?_set] at hu
+      by_cases hut : t = u
+      · subst hut
+        have hlt : t < s.ths.length := by
+          rcases List.getElem?_eq_some_iff.mp hth with ⟨hl, _⟩; exact hl
+        simp only [hlt, ite_true, Option.some.injEq] at hu
+        subst hu
+        exact so.tinv
+      · simp only [hut, ite_false] at hu
+        exact tinv_stable h.good so.act (Ne.symm hut) (h.tinv u thu hu)
+    · intro e he
+      simp only at he
+      cases hres : (thStep rule s.L t th).res with
+      | none =>
+        rw [hres] at he
+        exact resok_stable h.good so.act (h.logok e he)
+      | some r =>
+        rw [hres] at he
+        simp only [addLog, List.mem_cons] at he
+        rcases he with he | he
+        · subst he; exact so.res r hres
+        · exact resok_stable h.good so.act (h.logok e he)
+    · simp only
+      rw [so.wins, h.wins]
+      cases hres : (thStep rule s.L t th).res with
+      | none => simp [addLog]
+      | some r => simp only [addLog]; rw [← List.filterMap_append]; rfl
+
+theorem inv_reachable (rule : Key → Rule) (progs : List (List Op)) (sched : List Tid) :
+    Inv rule ((sys rule progs).run sched) :=
+  Sys.inv_run (sys rule progs) (Inv rule) (inv_init rule progs) (fun s t h => inv_step rule s t h) sched
 
 end TbbVerif.C12
